@@ -6,6 +6,8 @@ ROT = [(r'utils::rotate<(\w+)>::(left|right)\(', r'XV_ROTATE_\2(\1, ', 'rotate')
 SA = [(r'static_assert\(([^,;]+),\s*"[^"]*"\);', r'XV_STATIC_ASSERT(\1);', 'static_assert')]
 SPEC0 = r'class marked_ptr<T, 0, MaxUpperMarkBits> \{.*?'
 
+TD = {'XV_TRACE_SMALL': 1}   # counterexample extraction only: MaxUpperMarkBits <= 33, the range replay_mp.cpp instantiates
+VM = {'get': 'MP_GET', 'mark': 'MP_MARK'}; VM0 = {'get': 'MP0_GET', 'mark': 'MP0_MARK'}   # only fire if == were written in terms of get()/mark()
 def F(id, sig, c_sig, which=0, **kw):
     d = dict(id=id, file=MP, sig=sig, which=which, c_sig=c_sig, members=['_ptr'])
     d.update(kw); d.setdefault('must_fire', {})
@@ -50,40 +52,40 @@ UNIT = dict(
     # ---- primary template
     F('make_ptr', r'T\* make_ptr\(T\* p, uintptr_t mark\) noexcept', 'static T* mp_make_ptr(struct mp* self, T* p, uintptr_t mark)',
       subst=ROT, must_fire={'subst:rotate': 1, 'cast': 3}),
-    F('ctor', r'marked_ptr\(T\* p = nullptr, uintptr_t mark = 0\) noexcept', 'static void mp_ctor(struct mp* self, T* p, uintptr_t mark)',
+    F('ctor', r'marked_ptr\(T\* p = \w+, uintptr_t mark = \w+\) noexcept', 'static void mp_ctor(struct mp* self, T* p, uintptr_t mark)',
       ctor=True, must_fire={'ctor_init': 1}),
     F('reset', r'void reset\(\) noexcept', 'static void mp_reset(struct mp* self)', must_fire={'member:_ptr': 1}),
     F('mark', r'uintptr_t mark\(\) const noexcept', 'static uintptr_t mp_mark(const struct mp* self)', subst=ROT,
       must_fire={'subst:rotate': 1, 'cast': 1, 'member:_ptr': 1}),
     F('get', r'T\* get\(\) const noexcept', 'static T* mp_get(const struct mp* self)', must_fire={'cast': 2, 'member:_ptr': 1}),
-    F('bool', r'explicit operator bool\(\) const noexcept', 'static _Bool mp_bool(const struct mp* self)', must_fire={'member:_ptr': 1}),
+    F('bool', r'explicit operator bool\(\) const noexcept', 'static _Bool mp_bool(const struct mp* self)', self_calls={'get': 'mp_get', 'mark': 'mp_mark'}, must_fire={'member:_ptr': 1}),
     F('arrow', r'T\* operator->\(\) const noexcept', 'static T* mp_arrow(const struct mp* self)', self_calls={'get': 'mp_get'},
       must_fire={'self_call:get': 1}),
     F('star', r'T& operator\*\(\) const noexcept', 'static T* mp_star(const struct mp* self)', self_calls={'get': 'mp_get'},
       subst=[(r'return \*', 'return &*', 'ref_return')], must_fire={'self_call:get': 1, 'subst:ref_return': 1}),
-    F('eq', r'inline friend bool operator==\(const marked_ptr& l, const marked_ptr& r\)', 'static _Bool mp_eq(struct mp l, struct mp r)', members=[]),
-    F('ne', r'inline friend bool operator!=\(const marked_ptr& l, const marked_ptr& r\)', 'static _Bool mp_ne(struct mp l, struct mp r)', members=[]),
+    F('eq', r'inline friend bool operator==\(const marked_ptr& l, const marked_ptr& r\)', 'static _Bool mp_eq(struct mp l, struct mp r)', members=[], methods=VM),
+    F('ne', r'inline friend bool operator!=\(const marked_ptr& l, const marked_ptr& r\)', 'static _Bool mp_ne(struct mp l, struct mp r)', members=[], methods=VM),
     # ---- MarkBits == 0 specialisation
-    F('ctor0', r'marked_ptr\(T\* p = nullptr\) noexcept', 'static void mp0_ctor(struct mp* self, T* p)', must_fire={'member:_ptr': 1}),
+    F('ctor0', r'marked_ptr\(T\* p = \w+\) noexcept', 'static void mp0_ctor(struct mp* self, T* p)', must_fire={'member:_ptr': 1}),
     F('reset0', r'void reset\(\) noexcept', 'static void mp0_reset(struct mp* self)', which=1, must_fire={'member:_ptr': 1}),
     F('mark0', r'uintptr_t mark\(\) const noexcept', 'static uintptr_t mp0_mark(const struct mp* self)', which=1),
     F('get0', r'T\* get\(\) const noexcept', 'static T* mp0_get(const struct mp* self)', which=1, must_fire={'member:_ptr': 1}),
-    F('bool0', r'explicit operator bool\(\) const noexcept', 'static _Bool mp0_bool(const struct mp* self)', which=1, must_fire={'member:_ptr': 1}),
+    F('bool0', r'explicit operator bool\(\) const noexcept', 'static _Bool mp0_bool(const struct mp* self)', which=1, self_calls={'get': 'mp0_get', 'mark': 'mp0_mark'}, must_fire={'member:_ptr': 1}),
     F('arrow0', r'T\* operator->\(\) const noexcept', 'static T* mp0_arrow(const struct mp* self)', which=1, self_calls={'get': 'mp0_get'},
       must_fire={'self_call:get': 1}),
     F('star0', r'T& operator\*\(\) const noexcept', 'static T* mp0_star(const struct mp* self)', which=1, self_calls={'get': 'mp0_get'},
       subst=[(r'return \*', 'return &*', 'ref_return')], must_fire={'self_call:get': 1, 'subst:ref_return': 1}),
-    F('eq0', r'inline friend bool operator==\(const marked_ptr& l, const marked_ptr& r\)', 'static _Bool mp0_eq(struct mp l, struct mp r)', which=1, members=[]),
-    F('ne0', r'inline friend bool operator!=\(const marked_ptr& l, const marked_ptr& r\)', 'static _Bool mp0_ne(struct mp l, struct mp r)', which=1, members=[]),
+    F('eq0', r'inline friend bool operator==\(const marked_ptr& l, const marked_ptr& r\)', 'static _Bool mp0_eq(struct mp l, struct mp r)', which=1, members=[], methods=VM0),
+    F('ne0', r'inline friend bool operator!=\(const marked_ptr& l, const marked_ptr& r\)', 'static _Bool mp0_ne(struct mp l, struct mp r)', which=1, members=[], methods=VM0),
   ],
   runs=[
-    dict(id='consts', entry='h_consts', cls='unbounded', note='MarkBits 1..32 (the static_asserts), MaxUpperMarkBits any 64-bit value'),
-    dict(id='roundtrip', entry='h_roundtrip', cls='unbounded', note='symbolic MarkBits/MaxUpperMarkBits, all 64-bit p (reserved bits clear) and m'),
-    dict(id='eq', entry='h_eq', cls='unbounded'),
-    dict(id='repr', entry='h_repr', cls='unbounded', note='from ANY 64-bit representation word'),
-    dict(id='reset', entry='h_reset', cls='unbounded'),
+    dict(id='consts', entry='h_consts', cls='unbounded', trace_defs=TD, note='MarkBits 1..32 (the static_asserts), MaxUpperMarkBits any 64-bit value'),
+    dict(id='roundtrip', entry='h_roundtrip', cls='unbounded', trace_defs=TD, note='symbolic MarkBits/MaxUpperMarkBits, all 64-bit p (reserved bits clear) and m'),
+    dict(id='eq', entry='h_eq', cls='unbounded', trace_defs=TD),
+    dict(id='repr', entry='h_repr', cls='unbounded', trace_defs=TD, note='from ANY 64-bit representation word'),
+    dict(id='reset', entry='h_reset', cls='unbounded', trace_defs=TD),
     dict(id='rotate', entry='h_rotate', cls='unbounded', note='C symbolic in 0..63'),
-    dict(id='spec0', entry='h_spec0', cls='unbounded', note='MarkBits == 0 specialisation'),
+    dict(id='spec0', entry='h_spec0', cls='unbounded', trace_defs=TD, note='MarkBits == 0 specialisation'),
   ],
   obligations={
     'mp.consts.layout': dict(deciding=True, text='for all MarkBits 1..32 and every MaxUpperMarkBits: upper = min(MarkBits, MaxUpper), lower = MarkBits - upper, pointer_bits = 64 - MarkBits, pointer_mask = bits [lower, lower+pointer_bits), MarkMask = 2^MarkBits-1, number_of_mark_bits = MarkBits (0 in the specialisation)'),
@@ -97,7 +99,7 @@ UNIT = dict(
     'mp.rotate.inverse': dict(deciding=True, text='rotate<C>::right(rotate<C>::left(v)) == v == left(right(v)) for every C in 0..63 and every v; left moves bit i to bit (i+C) mod 64'),
     'mp.spec0.roundtrip': dict(deciding=True, text='MarkBits == 0: get() == p for EVERY 64-bit p, mark() == 0, == is pointer equality, reset gives nullptr, bool iff p != nullptr'),
   },
-  replays={k: dict(src='replay_mp.cpp') for k in ['mp.get.roundtrip', 'mp.mark.roundtrip', 'mp.eq.value', 'mp.reset.null', 'mp.ctor.precondition', 'mp.repr.bijective', 'mp.spec0.roundtrip']},
+  replays={k: dict(src='replay_mp.cpp', cxxflags=['-O0', '-g0']) for k in ['mp.consts.layout', 'mp.rotate.inverse', 'mp.get.roundtrip', 'mp.mark.roundtrip', 'mp.eq.value', 'mp.reset.null', 'mp.ctor.precondition', 'mp.repr.bijective', 'mp.spec0.roundtrip']},
   canaries=['consts.split', 'consts.all_upper', 'consts.all_lower', 'consts.huge_maxupper',
             'roundtrip.split', 'roundtrip.all_upper', 'roundtrip.all_lower', 'roundtrip.mb32', 'roundtrip.mark_trimmed', 'roundtrip.default_maxupper',
             'eq.same', 'eq.ptr_differs', 'eq.mark_differs', 'eq.mark_congruent', 'repr.reached', 'repr.equal', 'reset.reached', 'reset.marked_null', 'reset.null',
